@@ -148,3 +148,21 @@ def confirmed(case, fn, acc, retries=2):
             first.count('flaky_unconfirmed')
             first.seen('list:flaky_unconfirmed_mechanisms', mech)
     acc.merge(first.dump())
+
+
+def second_attempt(acc, case, rerun, seconds, what):
+    """A case ran into its watchdog.  Everything driven by the checks is bounded (timeouts of a few seconds inside
+    the subject, peers that answer within seconds), so the case is run once more, serially: a second hang is reported
+    as a violation (the replay shows where it sticks); a single one is load and only counted."""
+    from .watchdog import watchdog, CaseTimeout
+    try:
+        with watchdog(seconds):
+            rerun()
+    except CaseTimeout as e:
+        acc.violation('case-does-not-finish', '%s; and again on a second, serial attempt (%s)' % (what, e), case)
+        return True
+    except Exception as e:
+        acc.inconc('watchdog (%s), then %s on the second attempt: %s' % (what, type(e).__name__, e))
+        return False
+    acc.count('watchdog_once_then_finished')
+    return False
